@@ -179,6 +179,11 @@ func Assert(c bool, label string) {
 // Cover is a reachability witness: some explored path must make c true.
 func Cover(label string, c bool) {}
 
+// CryptoClient, when set, is what the executor hands out wherever the code under test
+// instantiates a crypto plug-in (crypto/client.CreateCryptoClient*). Natively it is ignored:
+// harnesses that use it are replayed by the executor.
+var CryptoClient interface{}
+
 // Known declares the predicate of a known-finding class over the inputs.
 func Known(class string, c bool) {}
 
